@@ -220,10 +220,17 @@ theorem classifyNum_wf (lists : List Str) : ∀ (rows : List (Nat × Cells)) (ks
         · subst hp; exact classify_wf lists n r k hc
         · exact ih ks' hrest p hp
 
+theorem wfL_map_auditQ (l : List Cells) : wfL ((l.map fun _ => auditQ).map Item.q) = true := by
+  induction l with
+  | nil => simp [wfL]
+  | cons x xs ih =>
+    simp only [List.map_cons, wfL, Item.wf, ih, Bool.and_true]
+    simp [QData.wf, auditQ]
+
 theorem metaKids_wf (rows : List Cells) (settings : Cells) :
     wfL ((metaKids rows settings).map Item.q) = true := by
   unfold metaKids
-  simp only []
+  simp only [List.map_append, wfL_append, wfL_map_auditQ, Bool.true_and]
   repeat' split
   all_goals simp [wfL, Item.wf, QData.wf]
 
